@@ -99,6 +99,21 @@ func c06Case(m *Model, v *Verdict, rng *RNG, et int32, l int) {
 		c := append(append([]byte{}, ct...), rng.Bytes(n)...)
 		check("extended", key, usage, c, true, true)
 	}
+	// bytes inserted or removed at the structural boundaries (front, after the first block, middle, in
+	// front of the trailing tag region, end)
+	for _, pos := range []int{0, 8, 16, len(ct) / 2, len(ct) - 24, len(ct) - 20, len(ct) - 16, len(ct) - 12, len(ct)} {
+		if pos < 0 || pos > len(ct) {
+			continue
+		}
+		for _, n := range []int{1, 3, 7, 8, 16} {
+			c := append(append(append([]byte{}, ct[:pos]...), rng.Bytes(n)...), ct[pos:]...)
+			check("inserted", key, usage, c, n == 1 || n == 7, true)
+			if pos+n <= len(ct) {
+				c2 := append(append([]byte{}, ct[:pos]...), ct[pos+n:]...)
+				check("removed", key, usage, c2, n == 1, true)
+			}
+		}
+	}
 	// swapped blocks (first two blocks of the ciphertext body)
 	bs := 16
 	if et == 16 {
@@ -126,6 +141,13 @@ func c06Case(m *Model, v *Verdict, rng *RNG, et int32, l int) {
 			continue
 		}
 		check("other-usage", key, u, ct, rng.Intn(4) == 0, true)
+	}
+	// usages that differ only in their high octets (the usage is a 32-bit number in every derivation)
+	for _, u := range []uint32{usage + 1<<16, usage + 3<<16, usage ^ 1<<24, usage ^ 1<<31, usage + 1<<8, usage<<8 | usage} {
+		if u == usage {
+			continue
+		}
+		check("other-usage-high", key, u, ct, true, true)
 	}
 	// unrelated keys, and one-bit-different keys (des3: parity bits are not key material)
 	for n := 0; n < 3; n++ {
